@@ -142,7 +142,9 @@ def runHist (fl : Flags) (b : Block) : Res :=
     if n > 1 then some s!"run-once_function_f{fid}_executed_{n}_times" else none)
   -- a wrapper assembled over the target's own value sets was called before the history: it must not panic
   let wrapV := ((field b "wrap").getD []).headD "none"
-  let st := { st with c06 := st.c06.or (if wrapV = "panic" then some "BuildFunc_over_the_targets_own_value_sets_panicked_when_called" else none) }
+  let st := { st with c06 := st.c06.or (if wrapV = "panic" then some "BuildFunc_over_the_targets_own_value_sets_panicked_when_called" else none),
+                      -- C15: a function built from a function's own input and output sets is an ordinary function of that signature
+                      c15 := st.c15.or (if wrapV = "panic" ∨ wrapV = "builderr" then some s!"BuildFunc_over_the_targets_own_value_sets_{wrapV}" else none) }
   let nOnceUsed := (onceIds.filter (fun fid => st.execs.any (fun e => e.fid == fid))).length
   { conform := st.conform, propNA := true,
     props := [("C09", verdictStr st.c09), ("C11", verdictStr c11), ("C06", verdictStr st.c06), ("C04", verdictStr st.c04),
